@@ -177,6 +177,38 @@ class Gen:
             ch.append(('o', ' -- is it ? \n'))
         return ch
 
+    def wide_statement(self):
+        """Size instead of shape: 10-40 placeholders in one flat statement (a wide INSERT, a long AND chain, a long IN list, a wide
+        select list, a wide UPDATE).  Whatever collects or binds placeholders by sorting, numbering or de-duplicating them
+        behaves differently only beyond some count (two-digit positions, equal neighbouring expressions)."""
+        rng = self.rng
+        n = rng.choice([10, 11, 12, 16, 21, 33, 40])
+        k = rng.randrange(6)
+        if k == 0:
+            rows = rng.choice([1, 1, 2])
+            per = n // rows
+            cols = ', '.join('c%d' % i for i in range(per))
+            vals = ', '.join('(' + ', '.join(MARK if rng.random() < 0.9 else str(i) for i in range(per)) + ')' for _ in range(rows))
+            return [('m', 'insert into int.t1 (%s) values %s' % (cols, vals))], 'one'
+        if k == 1:
+            ch = [('m', 'select * from int.t1 where c0 = ' + MARK)]
+            ch += [('o', ' and c%d %s %s' % (i, rng.choice(['=', '=', '>', '<>']), MARK)) for i in range(1, n)]
+            return ch, rng.choice(['one', 'two'])
+        if k == 2:
+            ch = [('m', 'select a from int.t1 where b in (' + MARK)] + [('o', ', ' + MARK) for _ in range(n - 1)] + [('m', ')')]
+            if rng.random() < 0.4:
+                ch.append(('o', ' and c = ' + MARK))
+            return ch, 'one'
+        if k == 3:
+            ch = [('m', 'select ' + MARK)] + [('o', ', ' + (MARK if rng.random() < 0.85 else 'c')) for _ in range(n - 1)] + [('m', ' from int.t1')]
+            return ch, 'one'
+        if k == 4:
+            ch = [('m', 'update int.t1 set c0 = ' + MARK)] + [('o', ', c%d = %s' % (i, MARK)) for i in range(1, n - 1)] + [('m', ' where id = ' + MARK)]
+            return ch, 'one'
+        # the same column compared again and again: equal neighbouring expressions
+        ch = [('m', 'delete from int.t1 where a = ' + MARK)] + [('o', ' or a = ' + MARK) for _ in range(n - 1)]
+        return ch, 'one'
+
     def statement(self):
         rng = self.rng
         depth = rng.choice([0, 1, 1, 2, 2, 3])
@@ -470,6 +502,8 @@ def gen_scenario(seed):
                 ch, cat = g.statement()
                 if text_of(ch).count(MARK) <= 6:
                     break
+            if rng.random() < 0.07:
+                ch, cat = g.wide_statement()
             if i > 0 and rng.random() < 0.3 and sessions[0]['stmts'][0]['chunks'][0][1].startswith('select'):
                 # a sibling of session 0's first statement: same select list and FROM, another WHERE
                 base_ch = sessions[0]['stmts'][0]['chunks']
